@@ -433,6 +433,7 @@ def run_shard(params):
         trace, status, events = run_fmmu_schedule(pre, n, r.getrandbits(16))
         analyse_fmmu(tuple(c for c, _ in trace), trace, status, events, n,
                      res, sigs, "fmmu_random")
+    windows_leg(res, rng, 6 if params["rnd"] <= 10 else 40)
     res.info["distinct_interleavings"] = len(sigs)
     res.info["exhaustive"] = False
     return res
@@ -492,8 +493,100 @@ def analyse(choices, trace, status, events, npart, res, sigs, kind):
         res.sample(dict(desc, effects=[(p, op) for _, p, op, _ in events]))
 
 
+def windows_history(case, res):
+    """participants of one address map that draw windows for their sync
+    groups (no scheduling: the operations are sequential): windows that
+    different live participants hold never overlap, however many each of
+    them has drawn"""
+    import os
+    root = tempfile.mkdtemp(prefix="vf-c23w-")
+    draws = iter(case["draws"])
+    old = lockmod.randrange
+    lockmod.randrange = lambda a, b=None: next(draws, 400)
+    live = {}        # participant -> (lock, its address range, [windows])
+    heavy = set()    # participants that have drawn more than 1023 windows
+    heavy_left = False
+    KNOWN = "process-draws-more-than-1023-windows"
+    res.case(["fmmu_windows", case], nontrivial=True)
+    res.count("window_histories")
+    try:
+        for op in case["ops"]:
+            who = op[1]
+            if op[0] == "open":
+                lk = lockmod.FMMULock(root + "/vf0.fmmu")
+                r = lk.base_addr >> 22
+                if lk.base_addr % (1 << 22) or not 0 < r < 512:
+                    return ("unexplained:fmmu-windows",
+                            f"participant {who} got base {lk.base_addr:#x}")
+                for q, (lq, rq, wq) in live.items():
+                    if rq == r:
+                        # the range of a live participant given out again
+                        return (KNOWN if heavy_left
+                                else "unexplained:fmmu-windows",
+                                f"participant {who} got address range {r}, "
+                                f"which participant {q} holds")
+                    if any(w >> 22 == r for w in wq):
+                        return (KNOWN if q in heavy
+                                else "unexplained:fmmu-windows",
+                                f"participant {who} got address range {r}, "
+                                f"in which participant {q} holds windows")
+                live[who] = (lk, r, [])
+            elif op[0] == "draw":
+                lk, r, ws = live[who]
+                for _ in range(op[2]):
+                    w = lk.get_next_addr()
+                    ws.append(w)
+                    res.count("windows_drawn")
+                    if len(ws) > 1023:
+                        heavy.add(who)
+                        res.count("windows_drawn_beyond_the_1023rd")
+                    for q, (lq, rq, wq) in live.items():
+                        if q != who and (w in wq or w >> 22 == rq):
+                            return (KNOWN if who in heavy
+                                    else "unexplained:fmmu-windows",
+                                    f"window {w:#x}, the {len(ws)}th of "
+                                    f"participant {who}, lies in the address "
+                                    f"range of participant {q}")
+            else:
+                lk, r, ws = live.pop(who)
+                if who in heavy:
+                    heavy_left = True
+                lk.remove()
+    finally:
+        lockmod.randrange = old
+        for lk, r, ws in live.values():
+            try:
+                os.close(lk.fd)
+            except OSError:
+                pass
+        shutil.rmtree(root, ignore_errors=True)
+    return None
+
+
+def windows_leg(res, rng, n):
+    for _ in range(n):
+        counts = [rng.choice([1, 3, 40, 1022, 1023, 1024, 1025, 1500, 2100])
+                  for _ in range(3)]
+        if rng.random() < 0.5:
+            counts = [min(c, 1023) for c in counts]
+        ops = [("open", 0), ("open", 1), ("draw", 0, counts[0]),
+               ("draw", 1, counts[1])]
+        if rng.random() < 0.5:
+            ops += [("close", rng.choice([0, 1])), ("open", 2),
+                    ("draw", 2, counts[2])]
+        # neighbouring and distant address ranges; the creator always gets 1
+        case = dict(ops=ops, draws=[rng.choice([2, 2, 3, 1, 2, 9])
+                                    for _ in range(8)])
+        bad = windows_history(case, res)
+        if bad:
+            res.violation(bad[0], bad[1], case=dict(kind="fmmu_windows",
+                                                    **case))
+
+
 def finalize(res, tier, seed):
     c = res.counters
+    if not c.get("window_histories"):
+        res.inconc("window histories did not run")
     if not c.get("schedules_enumerated"):
         res.inconc("no schedule enumerated")
     if not c.get("schedules_random3"):
@@ -506,6 +599,11 @@ def finalize(res, tier, seed):
 def replay(v):
     res = Result()
     c = v["case"]
+    if c["kind"] == "fmmu_windows":
+        bad = windows_history(c, res)
+        if bad:
+            res.violation(bad[0], bad[1], case=c)
+        return res
     if c["kind"].startswith("fmmu"):
         return res      # random draws are not stored in the case
     trace, status, events = run_schedule(tuple(c["schedule"]),
